@@ -366,7 +366,23 @@ def oracle_model_case(case, res):
             encn = "DER" if enc else "NXP"
             L = len(O.der_sig(r, s)) if enc else 2 * CSIZE[cv]
             got = "error kind %d" % res[1] if not ok else repr([y[1] for y in res[1]])
-            return (f"ECDSASignature.parse-export({encn}):{CNAME[cv]}:L={L}",
+            # the signature names the *outcome* (what went wrong), not only the input class: a listed finding excuses
+            # exactly its own defective outcome, any other wrong answer on the same input is a violation
+            if not ok:
+                outcome = f"rejected-e{res[1]}"
+            else:
+                try:
+                    r2, s2, cv2 = [y[1] for y in res[1]]
+                    d_ = O.der_sig(r, s)
+                    if enc and (r2, s2) == (int.from_bytes(d_[:L // 2], "big"), int.from_bytes(d_[L // 2:], "big")):
+                        outcome = f"der-bytes-read-as-raw-halves-of-{CNAME[cv2]}"
+                    elif (r2, s2) == (r, s) and cv2 != cv:
+                        outcome = f"attributed-to-{CNAME[cv2]}"
+                    else:
+                        outcome = "other-wrong-value"
+                except Exception:  # noqa
+                    outcome = "other-wrong-value"
+            return (f"ECDSASignature.parse-export({encn}):{CNAME[cv]}:L={L}:{outcome}",
                     f"ECDSASignature.parse(ECDSASignature(r={r:#x}, s={s:#x}, {CNAME[cv]}).export({encn})) [{L} bytes] -> {got}")
     elif fn == 8:
         der, c = a
@@ -384,7 +400,17 @@ def oracle_model_case(case, res):
             c = CSIZE[cv]
             want = rs[0].to_bytes(c, "big") + rs[1].to_bytes(c, "big")
             if not ok or res[1] != want:
-                return (f"get_signature(DER):{CNAME[cv]}:L={len(sig)}",
+                if not ok:
+                    outcome = f"error-e{res[1]}"
+                elif res[1] == sig:
+                    outcome = "returned-unchanged"
+                else:
+                    outcome = "other-wrong-value"
+                    for k in range(3):
+                        w = CSIZE[k]
+                        if k != cv and max(rs) < 1 << (8 * w) and res[1] == rs[0].to_bytes(w, "big") + rs[1].to_bytes(w, "big"):
+                            outcome = f"raw-of-{CNAME[k]}"
+                return (f"get_signature(DER):{CNAME[cv]}:L={len(sig)}:{outcome}",
                         f"get_signature of the {len(sig)}-byte DER signature r={rs[0]:#x} s={rs[1]:#x} ({CNAME[cv]}) -> "
                         + (res[1].hex() if ok else f"error kind {res[1]}"))
         if len(sig) in (256, 384, 512) and (not ok or res[1] != sig):
@@ -800,7 +826,8 @@ def keys_stream(rep, tier, rng, impl):
             if kind == "ecc" and encd != "DER" and len(sig) != sigsize:
                 rs = O.parse_der_sig(sig)
                 L = len(sig)
-                fail(f"get_signature(DER):{CNAME[nums[1]]}:L={L}" if rs else f"PlainFileSP.get_signature:{stag}:length",
+                unchanged = bool(rs) and indep_verify(pubnums, msg, sig, dict(kw, der_format=True))
+                fail(f"get_signature(DER):{CNAME[nums[1]]}:L={L}:returned-unchanged" if unchanged else f"PlainFileSP.get_signature:{stag}:length",
                      f"get_signature returned {L} bytes, the raw r||s form has {sigsize}", replay)
                 continue
             if sr[1]["signature_length"] != sigsize or sr[1]["verify_public_key"] is not True:
